@@ -32,28 +32,35 @@ struct WfObjects {
     double beta = 1.0;
     boost::mpi::communicator world;
 
-    // every object is constructed here, before IndexClassification::prepare() has run
-    void construct(Model* mm, double b, int i, int j) {
-        m = mm; beta = b; L = m->L;
-        IC = new IndexClassification(L->getSiteMap());
-        HS = new IndexHamiltonian(L, *IC);
-        SYM = new Symmetrizer(*IC, *HS);
-        S = new StatesClassification(*IC, *SYM);
-        H = new Hamiltonian(*IC, *HS, *S);
-        // HP (a part used on its own) reads the block size in its constructor: it is constructed by its first prepare() call
-        DM = new DensityMatrix(*S, *H, beta);
-        CX = new CreationOperator(*IC, *S, *H, j);
-        C = new AnnihilationOperator(*IC, *S, *H, i);
-        QA = new QuadraticOperator(*IC, *S, *H, i, j);
-        OPS = new FieldOperatorContainer(*IC, *S, *H);
-        GF = new GreensFunction(*S, *H, *C, *CX, *DM);
-        X = new TwoParticleGF(*S, *H, *C, *C, *CX, *CX, *DM);
-        SU = new Susceptibility(*S, *H, *QA, *QA, *DM);
-        EA = new EnsembleAverage(*S, *H, *QA, *DM);
-        V = new Vertex4(*X, *GF, *GF, *GF, *GF);
+    int ci = 0, cj2 = 0;
+    void init(Model* mm, double b, int i, int j) {
+        m = mm; beta = b; L = m->L; ci = i; cj2 = j;
         const double pi = 3.14159265358979323846;
         for (int a = -1; a <= 1; ++a) for (int c = -1; c <= 0; ++c)
             freqs.push_back(boost::make_tuple(ComplexType(0, pi * (2 * a + 1) / beta), ComplexType(0, pi * (2 * c + 1) / beta), ComplexType(0, pi * (2 * a + 1) / beta)));
+    }
+    // constructs object o if it does not exist yet (HP reads the block size in its constructor: it is always constructed by its first prepare())
+    void make(const std::string& o) {
+        if (o == "IC" && !IC) IC = new IndexClassification(L->getSiteMap());
+        else if (o == "HS" && !HS) HS = new IndexHamiltonian(L, *IC);
+        else if (o == "SYM" && !SYM) SYM = new Symmetrizer(*IC, *HS);
+        else if (o == "S" && !S) S = new StatesClassification(*IC, *SYM);
+        else if (o == "H" && !H) H = new Hamiltonian(*IC, *HS, *S);
+        else if (o == "DM" && !DM) DM = new DensityMatrix(*S, *H, beta);
+        else if (o == "CX" && !CX) CX = new CreationOperator(*IC, *S, *H, cj2);
+        else if (o == "C" && !C) C = new AnnihilationOperator(*IC, *S, *H, ci);
+        else if (o == "QA" && !QA) QA = new QuadraticOperator(*IC, *S, *H, ci, cj2);
+        else if (o == "OPS" && !OPS) OPS = new FieldOperatorContainer(*IC, *S, *H);
+        else if (o == "GF" && !GF) GF = new GreensFunction(*S, *H, *C, *CX, *DM);
+        else if (o == "X" && !X) X = new TwoParticleGF(*S, *H, *C, *C, *CX, *CX, *DM);
+        else if (o == "SU" && !SU) SU = new Susceptibility(*S, *H, *QA, *QA, *DM);
+        else if (o == "EA" && !EA) EA = new EnsembleAverage(*S, *H, *QA, *DM);
+        else if (o == "V" && !V) V = new Vertex4(*X, *GF, *GF, *GF, *GF);
+    }
+    // the histories under test: EVERY object is constructed up front, before IndexClassification::prepare() has run
+    void construct(Model* mm, double b, int i, int j) {
+        init(mm, b, i, j);
+        for (auto& o : names()) make(o);
     }
 
     static const std::vector<std::string>& names() {
@@ -237,11 +244,19 @@ struct WfObjects {
         return r;
     }
 
+    // the reference: the documented linear order, each object constructed just before its first call (as in the tutorial)
+    std::vector<ComplexType> canonical_table;
     void canonical() {
         const char* seq[][2] = {{"IC", "compute"}, {"HS", "compute"}, {"SYM", "compute"}, {"S", "compute"}, {"H", "prepare"}, {"H", "compute"}, {"HP", "prepare"}, {"HP", "compute"}, {"DM", "prepare"}, {"DM", "compute"},
                                 {"CX", "prepare"}, {"CX", "compute"}, {"C", "prepare"}, {"C", "compute"}, {"QA", "prepare"}, {"QA", "compute"},
-                                {"OPS", "prepare"}, {"OPS", "compute"}, {"GF", "prepare"}, {"GF", "compute"}, {"X", "prepare"}};
-        for (auto& s : seq) { Res r = call(s[0], s[1]); if (r.out != "ok") throw std::runtime_error(std::string("canonical order failed at ") + s[0] + "." + s[1] + ": " + r.ex); }
+                                {"OPS", "prepare"}, {"OPS", "compute"}, {"GF", "prepare"}, {"GF", "compute"}, {"X", "prepare"}, {"X", "compute"},
+                                {"SU", "prepare"}, {"SU", "compute"}, {"EA", "prepare"}, {"V", "compute"}};
+        for (auto& s : seq) {
+            make(s[0]);
+            Res r = call(s[0], s[1]);
+            if (r.out != "ok") throw std::runtime_error(std::string("canonical order failed at ") + s[0] + "." + s[1] + ": " + r.ex);
+            if (std::string(s[0]) == "X" && std::string(s[1]) == "compute") canonical_table = r.table;
+        }
     }
 };
 
@@ -253,17 +268,34 @@ inline void run_workflow(const json& sc) {
     double beta = std::stod(Model::beta_str(sc.value("beta", json("1.0"))));
     int i = sc.value("ij", json::array({0, 0}))[0].get<int>(), j = sc.value("ij", json::array({0, 0}))[1].get<int>();
     // canonical linear order on objects of their own
-    WfObjects can; can.construct(&m, beta, i, j);
+    WfObjects can; can.init(&m, beta, i, j);
     std::map<std::string, std::string> cdig;
     std::vector<ComplexType> ctable;
     std::string cex = classify_exception([&] {
         can.canonical();
-        WfObjects::Res r = can.call("X", "compute"); ctable = r.table;
-        can.call("SU", "prepare"); can.call("SU", "compute"); can.call("EA", "prepare"); can.call("V", "compute");
+        ctable = can.canonical_table;
         for (auto& o : WfObjects::names()) cdig[o] = can.digest(o);
     });
     if (!cex.empty()) { emit({{"e", "WFail"}, {"id", id}, {"fail", "canonical:" + cex}}); return; }
-    WfObjects w; w.construct(&m, beta, i, j);
+    // The objects under test live on a lattice of their own that is built in two phases: all objects are constructed when only the FIRST
+    // site exists (IndexClassification is handed the site map by reference), then the remaining sites and all terms are added.
+    LatticeBox box2;
+    if (sc.count("den")) box2.den = sc["den"].get<long>();
+    WfObjects w;
+    std::string lex = classify_exception([&] {
+        const json& sites = sc.at("sites");
+        Lattice* L2 = box2.lat[1];
+        L2->addSite(sites[0][0].get<std::string>(), sites[0][1].get<int>(), sites[0][2].get<int>());
+        w.init(&m, beta, i, j);
+        w.L = L2;
+        for (auto& o : WfObjects::names()) w.make(o);
+        for (size_t k = 1; k < sites.size(); ++k) L2->addSite(sites[k][0].get<std::string>(), sites[k][1].get<int>(), sites[k][2].get<int>());
+        for (const json& act : sc.at("build")) {
+            json r = box2.call(act);
+            if (r["res"] != "ok") throw std::runtime_error("build call rejected: " + act.dump());
+        }
+    });
+    if (!lex.empty()) { emit({{"e", "WFail"}, {"id", id}, {"fail", "lattice:" + lex}}); return; }
     emit({{"e", "WReset"}, {"id", id}});
     std::map<std::string, std::string> before;
     for (auto& o : WfObjects::names()) before[o] = w.digest(o);
